@@ -125,8 +125,11 @@ def random_call(rng, op, nmax=10):
     # column names that only differ by case / punctuation (as after a join): a column given BY NAME is the column
     # with exactly that name, not an earlier one whose accessor looks the same
     names = rng.choice([NAMES, NAMES, NAMES, ["A", "a", "B", "b", "c"], ["a b", "a_b", "X", "x", "y"]])[:ncols]
-    return {"op": op, "names": names, "cols": cols, "over": over,
-            "over_bare": nk == 1 and rng.random() < 0.5, "args": args, "apply": ap}
+    c = {"op": op, "names": names, "cols": cols, "over": over,
+         "over_bare": nk == 1 and rng.random() < 0.5, "args": args, "apply": ap}
+    if ap is None and rng.random() < 0.3:
+        c["reuse_args"] = True                               # see _call_on: the argument objects were used before
+    return c
 
 
 # ---- value classes the integer model of sums says nothing about (complex, Fraction, Decimal, float): decided by the oracle
@@ -440,6 +443,15 @@ def _call_on(t, names, pre, case, method, log, obs=None):
     ov = over[0] if (case.get("over_bare") and len(over) == 1) else over
     if obs is not None:
         obs["res"] = res
+        if case.get("reuse_args") and case["apply"] is None:
+            # the program keeps its argument objects (KEYS = ['region']; ...) and used them before, on ANOTHER table with the
+            # same column names (the rows in reverse order): a call reads its arguments, it does not rewrite them
+            try:
+                from serif import Table
+                t2 = Table({nm: [V.dec(x) for x in reversed(col)] for nm, col in zip(names, pre)})
+                getattr(t2, method)(over=ov, **kwargs)
+            except Exception:                                # noqa: BLE001
+                pass
     return getattr(t, method)(over=ov, **kwargs), res
 
 
